@@ -177,6 +177,9 @@ def gen_world(w, n_membranes=(2, 4), small=False):
     spec["conditions"] = conds
     ok_idx = [i for i, c in enumerate(comps_) if 0.01 < c[0] < 0.99]
     spec["comp_lists"] = [sorted(w.sample(ok_idx, min(len(ok_idx), w.randint(2, 5)))) for _ in range(w.randint(2, 3))]
+    edge_idx = [i for i, c in enumerate(comps_) if c[0] in (0.0, 1.0)]
+    if edge_idx and w.random() < 0.5:
+        spec["comp_lists"].append(sorted(set(w.sample(ok_idx, min(len(ok_idx), 2)) + [w.choice(edge_idx)])))     # a list that includes a pure-component point
     # curve sets, curves, measurements
     csets = []
     for mi, m in enumerate(membranes):
@@ -246,6 +249,14 @@ def gen_function(w):
 
 
 def synth_points(w, npts=None, ntemps=None, endpoints=0.35):
+    pts = _synth_points(w, npts, ntemps, endpoints)
+    if w.random() < 0.12:
+        k = w.choice([1e-9, 1e-7, 1e-4, 1e3])     # the same curve in other units of p (SI permeances are ~1e-9)
+        pts = [[x, t, float("%.9g" % (p * k))] for x, t, p in pts]
+    return pts
+
+
+def _synth_points(w, npts=None, ntemps=None, endpoints=0.35):
     """Measurements generated from a ground truth alpha*exp(sum a x^(i+1) - sum b x^i / T) with noise."""
     ntemps = ntemps or w.randint(1, 4)
     npts = npts or w.randint(3, 40)
@@ -502,6 +513,8 @@ def g_nonideal_process(o, M):
     op = {"fn": o.choice(["non_ideal_isothermal_process", "non_ideal_non_isothermal_process"]), "args": a}
     if o.random() < 0.3:
         op["then"] = sorted(o.sample(["get_separation_factor", "get_psi", "get_selectivity"], o.randint(1, 3)))
+    if o.random() < 0.35:
+        op["eval_fits"] = grid(o, 3)                  # evaluate the returned permeance_fits (scalars and arrays) against the closed form
     return op
 
 
@@ -653,7 +666,10 @@ def g_fn_op(o, M):
     n = len(M.spec["functions"])
     r = o.random()
     if r < 0.4:
-        return {"fn": "fn_call", "grid_args": grid(o), "args": {"function": ref("functions", o.randrange(n))}}
+        op = {"fn": "fn_call", "grid_args": grid(o), "args": {"function": ref("functions", o.randrange(n))}}
+        if o.random() < 0.4:
+            op["as_array"] = o.choice(["x", "t"])       # evaluated on a numpy array of compositions or of temperatures
+        return op
     if r < 0.8:
         return {"fn": "fn_mul", "grid": grid(o, 3), "args": {"function": ref("functions", o.randrange(n)),
                                                                "constant": o.choice([2, 0.5, -1.0, wg.logu(o, 1e-3, 1e3, 6), 0])}}
